@@ -3,6 +3,8 @@ package props
 import (
 	"bytes"
 	"crypto/elliptic"
+	"crypto/sha256"
+	"crypto/sha512"
 	"encoding/hex"
 	"fmt"
 	"math/big"
@@ -89,7 +91,20 @@ func newC09World(c *core.Ctx, nClients, nIdx, nAnon int) *c09World {
 			w.anon = append(w.anon, []byte{})
 			continue
 		}
-		w.anon = append(w.anon, []byte(fmt.Sprintf("anon-origin-%d", k)))
+		switch {
+		case nAnon >= 5 && k == 2:
+			// a long anonymous origin ID ...
+			w.anon = append(w.anon, bytes.Repeat([]byte("long-anonymous-origin-id/"), 5))
+		case nAnon >= 5 && k == 3:
+			// ... and the SHA-384 digest of it, which is a DIFFERENT ID
+			h := sha512.Sum384(w.anon[2])
+			w.anon = append(w.anon, h[:])
+		case nAnon >= 5 && k == 4:
+			h := sha256.Sum256(w.anon[2])
+			w.anon = append(w.anon, h[:])
+		default:
+			w.anon = append(w.anon, []byte(fmt.Sprintf("anon-origin-%d", k)))
+		}
 	}
 	for ci := 0; ci < nClients; ci++ {
 		h := c06MkHonest(r, ScalarBytes(r, N, 48), ScalarBytes(r, N, 48), 64)
